@@ -73,11 +73,12 @@ func idxList(s, prefix string) []interface{} {
 
 func runUpDown(vec map[string]interface{}) map[string]interface{} {
 	ref := gSeq(vec, "ref")
-	qs := seqList(gList(vec, "queries"), "q", false)
-	ts := seqList(gList(vec, "targets"), "t", false)
-	refFa := renderFasta([]rec{{"ref", ref}}, 0, false)
-	qFa := renderFasta(qs, 0, false)
-	tFa := renderFasta(ts, 0, false)
+	// layout must not matter: lower-case letters, wrapped lines, CRLF
+	qs := seqList(gList(vec, "queries"), "q", gBool(vec, "lowq"))
+	ts := seqList(gList(vec, "targets"), "t", gBool(vec, "lowt"))
+	refFa := renderFasta([]rec{{"ref", ref}}, gIntD(vec, "wrapr", 0), false)
+	qFa := renderFasta(qs, gIntD(vec, "wrapq", 0), gBool(vec, "crlfq"))
+	tFa := renderFasta(ts, gIntD(vec, "wrapt", 0), gBool(vec, "crlft"))
 	obs := map[string]interface{}{}
 
 	list := func(fa []byte, prefix string) (map[string]interface{}, []byte, bool) {
